@@ -209,7 +209,7 @@ const fn mul_add(mut ui_a: u32, mut ui_b: u32, mut ui_c: u32, op: MulAddType) ->
         let mut u_z = P32E2::pack_to_ui(regime, exp_z as u32, frac_z);
 
         if bit_n_plus_one {
-            if (frac64_z << (32 - reg_z)) != 0 {
+            if (frac64_z << (31 - reg_z)) != 0 {
                 bits_more = true;
             }
             u_z += (u_z & 1) | (bits_more as u32);
